@@ -188,6 +188,8 @@ type Req struct {
 	EvalBudget  int            `json:"evalBudget,omitempty"`
 	ParseBudget int            `json:"parseBudget,omitempty"`
 	Shared      bool           `json:"shared,omitempty"` // seq: share one Interpreter
+	Dir         string         `json:"dir,omitempty"`    // exec with Main: a named directory that later requests of the same process reuse (files are replaced)
+	Mtime       int64          `json:"mtime,omitempty"`  // with Dir: modification time (unix seconds) given to every file written
 
 	// batch forms
 	Batch []Req    `json:"batch,omitempty"` // op=batch or seq
